@@ -51,7 +51,7 @@ class C01(Prop):
     anchors = ["aioswitcher.api:SwitcherApi._login", "aioswitcher.device.tools:set_message_length",
                "aioswitcher.device.tools:sign_packet_with_crc_key", "aioswitcher.api.remotes:SwitcherBreezeCommand.__init__",
                "aioswitcher.api:SwitcherType2Api._control_breeze_swing_device", "aioswitcher.api:SwitcherType1Api.create_schedule"]
-    min_evaluations = {"quick": 8_000, "thorough": 150_000}
+    min_evaluations = {"quick": 30_000, "thorough": 300_000}
     budget_s = {"quick": 60, "thorough": 900}
 
     def selftest(self):
@@ -67,7 +67,7 @@ class C01(Prop):
         await self.rig.close()
 
     def cases(self, tier, seed, shard, nshards):
-        n = {"quick": 2400, "thorough": 60_000}[tier]
+        n = {"quick": 9600, "thorough": 80_000}[tier]
         for i in range(shard, n, nshards):
             yield {"i": i, "seed": seed}
 
